@@ -9,6 +9,7 @@ import (
 	"fmt"
 	"os"
 	"path/filepath"
+	"strings"
 	"testing"
 	"time"
 )
@@ -113,6 +114,35 @@ func TestVerifC13(t *testing.T) {
 	}{{"epidemic", false}, {"spray", false}, {"binary_spray", false}, {"prophet", false}, {"dtlsr", false},
 		{"epidemic", true}, {"spray", true}, {"prophet", true}}
 	var perJob [][]*nHist
+	// directed histories first (the replay phase has a time budget)
+	var sentinels []*nHist
+	for ai, a := range algos {
+		if only != "" && only != a.name {
+			continue
+		}
+		for vi, evs := range []string{"U1 U2 U3 R1 T T X U1 U2 U3 T R2 T", "R1 U1 U2 T D2 U2 T S3 U3 T T", "U1 R4 U2 T X U2 U1 T R4 T"} {
+			h := c13Base(a.name, a.mule, 3, ai+vi)
+			h.oracle = map[[2]int]string{}
+			for _, p := range h.peers {
+				for _, b := range h.bundles {
+					pat := "01"
+					if (vi+p.addr+b.tag)%3 == 1 {
+						pat = "110"
+					}
+					h.oracle[[2]int{p.addr, b.tag}] = pat
+				}
+			}
+			for _, f := range strings.Fields(evs) {
+				e := nEvent{kind: f[0]}
+				if len(f) > 1 {
+					fmt.Sscanf(f[1:], "%d", &e.tag)
+					e.addr = e.tag
+				}
+				h.events = append(h.events, e)
+			}
+			sentinels = append(sentinels, h)
+		}
+	}
 	for _, a := range algos {
 		if only != "" && only != a.name {
 			continue
@@ -167,7 +197,7 @@ func TestVerifC13(t *testing.T) {
 			perJob = append(perJob, hs)
 		}
 	}
-	hs := nInterleave(perJob)
+	hs := append(sentinels, nInterleave(perJob)...)
 	t0 := time.Now()
 	n := nRunAll(hs, scratch, out, nBudget(80*time.Second, 12*time.Minute))
 	fmt.Fprintf(out, "# c13 histories=%d of %d wall=%.1fs seed=%d\n", n, len(hs), time.Since(t0).Seconds(), seed)
